@@ -45,6 +45,7 @@ type Engine struct {
 	verbose    bool
 	noAccel    bool
 	noIfConv   bool
+	noSlice    bool
 
 	mu          sync.Mutex
 	bounds      map[string]int64
@@ -578,7 +579,7 @@ func (e *Engine) writeEvidence(prop string, hs []*ssa.Function, wall time.Durati
 		"bounds":                        e.bounds,
 		"choices":                       e.choices,
 		"queries": map[string]interface{}{"feasibility": st.Feas, "assertion": st.Assertion, "sat": st.SatN, "unsat": st.UnsatN,
-			"unknown": st.UnknownN, "cache_hits": st.CacheHits, "portfolio_fallbacks": st.Fallbacks, "decided_by_fallback": st.SolversUsed},
+			"unknown": st.UnknownN, "cache_hits": st.CacheHits, "witness_model_hits": st.WitnessHits, "portfolio_fallbacks": st.Fallbacks, "decided_by_fallback": st.SolversUsed},
 		"solver_time_s":   st.SolverTime.Seconds(),
 		"max_query_s":     st.MaxQuery.Seconds(),
 		"solvers":         []string{"z3 4.8.12 (one process per worker, (reset) + full formula per query)", "portfolio on unknown: z3 4.8.12 fresh, z3-new 5.1.0, cvc5 1.0.x --solve-bv-as-int=sum"},
